@@ -9,7 +9,7 @@ func init() {
 			"that the provision is reduced exactly under epoch ≥ reduction period + last reduction epoch together with storing the minter and the new last-reduction epoch, that nothing is minted before the start epoch, and that developer rewards are burned from the mint account, paid from the vesting account under a supply-offset bracket.",
 		NotCovered:  []string{"mint account empty / supply grows by exactly the provision as numbers", "long-run schedule over epochs"},
 		Assumptions: []string{"bank keeper semantics", "epoch hook is invoked once per epoch (C17)"},
-		MinObl:      32,
+		MinObl:      33,
 		Run:         runC18,
 	})
 }
@@ -19,6 +19,8 @@ func runC18(c *rules.Ctx) {
 	const H = K + "AfterEpochEnd"
 	c.Let("PARAMS", "mintkeeper.Keeper.GetParams(k,ctx)")
 	c.Let("MINTER", "mintkeeper.Keeper.GetMinter(k,ctx)")
+	// the epochs module sees the keeper's verdict: a mint epoch that aborted half way is reported (and rolled back)
+	c.Returns("x/mint/keeper.Hooks.AfterEpochEnd", 0, "mintkeeper.Keeper.AfterEpochEnd(h.k,ctx,epochIdentifier,epochNumber)", "the hook wrapper returns the keeper's error unchanged", "")
 	// schedule
 	c.OnlyWhen(H, "mintkeeper.Keeper.mintCoins|mintkeeper.Keeper.DistributeMintedCoin|mintkeeper.Keeper.SetMinter", "eq(epochIdentifier, {PARAMS}.EpochIdentifier)", "only the configured mint epoch mints")
 	c.OnlyWhen(H, "mintkeeper.Keeper.mintCoins|mintkeeper.Keeper.DistributeMintedCoin", "not(lt(epochNumber, {PARAMS}.MintingRewardsDistributionStartEpoch))", "nothing is minted before the start epoch")
